@@ -1240,7 +1240,7 @@ def r13_const_expressions(ctx, F):
 
     ops = ["+", "-", "*", "/", "//"]
     shapes = []
-    for n in (2, 3, 4):
+    for n in ((2, 3, 4) if ctx.tier != "thorough" else (2, 3, 4, 5)):
         for combo in itertools.product(ops, repeat=n - 1):
             toks = []
             for i in range(n):
